@@ -170,11 +170,15 @@ def random_doc(rng, size='small', text_profile='plain', flavours=CORE_FLAVOURS, 
         ncols = rng.randint(1, 2 + big)
         if pk_layout == 'composite':
             ncols = max(ncols, 2)
+        if pk_layout == 'single':
+            pk_at = {rng.randrange(ncols)}               # not necessarily the first column
+        elif pk_layout == 'composite':
+            pk_at = set(rng.sample(range(ncols), rng.randint(2, min(3, ncols))))
+        else:
+            pk_at = set()
         for ci in range(ncols):
             c = am.Column(nm('c'), rand_type(rng, nm, doc))
-            if pk_layout == 'single' and ci == 0:
-                c.pk = True
-            if pk_layout == 'composite' and ci < 2:
+            if ci in pk_at:
                 c.pk = True
             c.unique = rng.random() < 0.2
             c.not_null = rng.random() < 0.3
